@@ -262,8 +262,9 @@ class C02(Check):
                 if case['hint'] in res[5:].split(','):
                     self.bump('probes', 'rejected_by_expected_check')
                 else:
-                    self.viol('rejected_by_wrong_check', inspector=fmt,
-                              expected=case['hint'], got=res, where=where)
+                    # the statement asks for rejection, not for WHICH check
+                    # rejects (checks may be renamed or merged): probe only
+                    self.bump('probes', 'rejected_by_another_check')
 
     # stream mode
     def _run_stream(self, case, data, info, label, log):
@@ -304,7 +305,11 @@ class C02(Check):
             r = imgsim.drive_wrapper(data, sizes, pers, order=s.get('order'),
                                      wq=q or None, watch_regions=False)
             if r['error']:
-                raise core.HarnessError('wrapper error %r' % (r['error'],))
+                # a wrapper that raises is C06's subject; nothing to judge
+                # here for this schedule
+                self.bump('probes', 'wrapper_raised_skipped')
+                log.add('wrapper-raised', r['error'])
+                return
             insps = imgsim.wrapper_inspectors(r['wrapper'])
             log.add('wrapper', r['format'], r['formats'])
             # own-format inspector inside the wrapper
